@@ -27,7 +27,7 @@ from qiskit.synthesis import OneQubitEulerDecomposer
 from qiskit.circuit import Gate, Qubit
 
 from qclib.gates.mcx import LinearMcx, McxVchainDirty
-from qclib.gates.util import check_su2, apply_ctrl_state, isclose
+from qclib.gates.util import check_u2, check_su2, apply_ctrl_state, isclose
 
 # pylint: disable=protected-access
 
@@ -43,6 +43,7 @@ class Ldmcsu(Gate):
 
     def __init__(self, unitary, num_controls, ctrl_state: str = None):
 
+        check_u2(np.asarray(unitary))
         check_su2(unitary)
         self.unitary = unitary
         self.controls = QuantumRegister(num_controls)
@@ -290,6 +291,7 @@ class LdMcSpecialUnitary(Gate):
 
     def __init__(self, unitary, num_controls, ctrl_state=None):
 
+        check_u2(np.asarray(unitary))
         if not check_su2(unitary):
             raise ValueError("Operator must be in SU(2)")
 
